@@ -29,6 +29,7 @@ Assumption recorded in the evidence: float expressions are read as exact rationa
 within one ulp of an integer); the correspondence run executes the real floats.
 """
 import ast
+import json
 import re
 from pathlib import Path
 
@@ -282,6 +283,17 @@ class FnTranslator:
         for rx, val in self.assume.items():
             if re.fullmatch(rx, src):
                 return 'True' if val else 'False'
+        if isinstance(node, ast.Compare) and len(node.ops) == 1 and isinstance(node.ops[0], (ast.In, ast.NotIn)) \
+                and isinstance(node.left, ast.Constant) and isinstance(node.left.value, str):
+            # "k" in md / "k" in md.keys()  ->  presence flag md_has_k (an Int parameter, non-zero = present)
+            c = node.comparators[0]
+            if isinstance(c, ast.Call) and isinstance(c.func, ast.Attribute) and c.func.attr == 'keys' and not c.args:
+                c = c.func.value
+            base = _name_of(c)
+            if base is None or base in env.vars or base in env.dropped or base in self.assigned:
+                raise Untranslatable('membership test ' + ast.unparse(node))
+            flag = self.param(env, f'{base}_has_{node.left.value}')
+            return f'({flag} ≠ 0)' if isinstance(node.ops[0], ast.In) else f'({flag} = 0)'
         if isinstance(node, ast.Compare):
             parts, left = [], node.left
             for op, right in zip(node.ops, node.comparators):
@@ -291,7 +303,15 @@ class FnTranslator:
                 (n1, d1), (n2, d2) = self.rat(left, env), self.rat(right, env)
                 if d1 is not None or d2 is not None:
                     raise Untranslatable('comparison of fractions ' + ast.unparse(node))
-                parts.append(f'{n1} {sym} {n2}')
+                opt = [x for x in (n1, n2) if x in self.optional]
+                if opt:
+                    # a value read with dict.get (None when the key is absent): `== c` needs the key, `!= c` holds without it
+                    if len(opt) == 2 or sym not in ('=', '≠'):
+                        raise Untranslatable('ordering comparison on an optional value: ' + ast.unparse(node))
+                    flag = self.param(env, self.optional[opt[0]])
+                    parts.append(f'({flag} ≠ 0 ∧ {n1} = {n2})' if sym == '=' else f'({flag} = 0 ∨ {n1} ≠ {n2})')
+                else:
+                    parts.append(f'{n1} {sym} {n2}')
                 left = right
             return '(' + ' ∧ '.join(parts) + ')'
         if isinstance(node, ast.BoolOp):
@@ -478,6 +498,10 @@ class FnTranslator:
                 raise
             env.dropped.add(nm)
             return False
+        if val in self.optional:
+            env.vars[nm] = val          # alias of an optional parameter: comparisons must see the presence flag
+            env.dropped.discard(nm)
+            return True
         ln = lean_id(nm)
         lets.append(f'let {ln} := {val}')
         env.vars[nm] = ln
@@ -557,9 +581,11 @@ class FnTranslator:
         if isinstance(s, ast.Return):
             if mode == 'list':
                 return '[]'
-            if s.value is None:
+            if s.value is None or (isinstance(s.value, ast.Constant) and s.value.value is None):
+                if self.option_return:
+                    return 'none'
                 raise Untranslatable('bare return in a value function')
-            return self.value(s.value, env)
+            return f'(some {self.value(s.value, env)})' if self.option_return else self.value(s.value, env)
         if isinstance(s, ast.Expr) and isinstance(s.value, ast.Yield):
             return f'{self.value(s.value.value, env)} :: {cont(env)}'
         ev = self.event_of(s, env) if self.events else None
@@ -610,6 +636,8 @@ class FnTranslator:
         raise Untranslatable('statement ' + type(s).__name__)
 
     def value(self, node, env):
+        if isinstance(node, ast.Constant) and isinstance(node.value, str):
+            return json.dumps(node.value)
         if isinstance(node, (ast.Tuple, ast.List)):
             return '(' + ', '.join(self.value(e, env) for e in node.elts) + ')'
         nm = _name_of(node) if isinstance(node, (ast.Name, ast.Attribute)) else None
@@ -623,6 +651,8 @@ class FnTranslator:
     generators_elem = {}
     fraction_params = {}
     assume = {}
+    optional = {}            # lean parameter name -> presence-flag parameter name
+    option_return = False
     needs_fuel = False
 
     def carried(self, body, env):
@@ -751,7 +781,8 @@ class FnTranslator:
         if body and isinstance(body[0], ast.Expr) and isinstance(body[0].value, ast.Constant) and isinstance(body[0].value.value, str):
             body = body[1:]
         # function arguments are parameters (never in self.assigned unless re-assigned)
-        end = (lambda e: '[]') if mode == 'list' else (lambda e: (_ for _ in ()).throw(Untranslatable('function falls off its end')))
+        end = (lambda e: '[]') if mode == 'list' else (lambda e: 'none') if self.option_return else \
+            (lambda e: (_ for _ in ()).throw(Untranslatable('function falls off its end')))
         txt = self.block(body, env, end, mode)
         return self.render(name, env, txt, mode)
 
@@ -836,6 +867,8 @@ def translate_item(src_root, item):
     tr.generators_elem = dict(item.get('_generators_elem', {}))
     tr.fraction_params = dict(item.get('fractions', {}))
     tr.assume = dict(item.get('assume', {}))
+    tr.optional = dict(item.get('optional', {}))
+    tr.option_return = bool(item.get('option_return'))
     if 'elem' in item:
         tr.elem_type = item['elem']
     if 'value' in item:
